@@ -48,14 +48,14 @@ func StableCopy(src, tag string) (string, error) {
 
 // Restart stops a replica between two blocks and starts a new application on a copy of its data directory through
 // the real Prepare(), then does what Tendermint's handshake does first (Info; InitChain when nothing was committed).
-// The old incarnation is abandoned (its directory is removed). A harness-side failure is returned as error.
+// The old incarnation is closed and its directory removed. A harness-side failure is returned as error.
 func Restart(old *Replica, c *Chain, tag string) (*Replica, error) {
 	dir, err := StableCopy(old.Dir, tag)
 	if err != nil {
 		return nil, err
 	}
 	idx, idb := old.CloneIndex()
-	old.Abandon()
+	old.Close() // (a stop between two blocks: the copy was taken first, nothing of the old incarnation is needed any more)
 	nr, err := Reopen(old.Name+"r", old, c, dir, idx, idb)
 	if err != nil {
 		_ = os.RemoveAll(dir)
@@ -66,6 +66,5 @@ func Restart(old *Replica, c *Chain, tag string) (*Replica, error) {
 	if !nr.Panicked && info.LastBlockHeight == 0 {
 		nr.InitChain(c)
 	}
-	_ = os.RemoveAll(old.Dir)
 	return nr, nil
 }
